@@ -242,6 +242,22 @@ func c08Run(c *Ctx) {
 			}
 		}
 	}
+	// 5c. lines longer than any read buffer (a long string literal, comment, array literal, blank run),
+	// followed by valid text or by an error on a later line: through the binary and in-process
+	for _, n := range []int{4096, 65535, 65536, 65537, 70000, 140000} {
+		longs := []string{Print(`"` + strings.Repeat("s", n) + `"`), "// " + strings.Repeat("-", n), "/* " + strings.Repeat("c", n) + " */", Var("big", "["+strings.Repeat("1, ", n/3)+"1]"), strings.Repeat(" ", n) + Print("0")}
+		for _, l := range longs {
+			for _, after := range []string{Print("2"), Print("2 +"), "@", Var(B["len"], "1"), "{ " + Print("3")} {
+				src := Print("1") + "\n" + l + "\n" + after + "\n"
+				if c.Mine() {
+					judge(&Case{Gen: "long-lines-cli", Mode: "cli", Src: src, X: map[string]string{"line_bytes": fmt.Sprint(n)}})
+				}
+				if n == 70000 && c.Mine() {
+					judge(&Case{Gen: "long-lines", Src: src})
+				}
+			}
+		}
+	}
 	// 5. nothing runs: printing prefix + one error on the last line (also through the binary)
 	errs := []string{"@", `"unterminated`, "/* open", Print("1") + " )", Print("1 +"), K["var"] + " ;", "1 = 2;", "}", Print("(1"), K["if"] + " x", K["fun"] + " (", "a b", Var(B["len"], "1"), "1" + strings.Repeat("0", 400) + ";"}
 	for _, e := range errs {
@@ -415,7 +431,7 @@ func init() {
 		Run:         c08Run,
 		Judge:       c08Judge,
 		MustCount: func(c *Ctx) []string {
-			return []string{"accepted", "rejected_syntax", "rejected_lexical", "rejected_assign_target", "gen:nothing-runs", "gen:deep-nest", "gen:param-limit", "gen:reserved-names", "gen:assignment-targets", "gen:literal-forms", "gen:code-point-classes", "gen:statement-positions", "gen:file-edges-cli", "cli_rejected_clean", "gen:prefix-extension"}
+			return []string{"accepted", "rejected_syntax", "rejected_lexical", "rejected_assign_target", "gen:nothing-runs", "gen:deep-nest", "gen:param-limit", "gen:reserved-names", "gen:assignment-targets", "gen:literal-forms", "gen:code-point-classes", "gen:statement-positions", "gen:file-edges-cli", "gen:long-lines-cli", "cli_rejected_clean", "gen:prefix-extension"}
 		},
 	})
 }
